@@ -147,11 +147,13 @@ def run(rep):
     for f in corpus_files():
         streams.append(("corpus:" + os.path.basename(f), ["replay", f], seed))
     if thorough:
-        streams += [("placements<=5", ["placements", "5"], seed), ("pairs<=4", ["pairs", "4", "0"], seed),
+        streams += [("placements<=5", ["placements", "5"], seed), ("angles", ["angles"], seed),
+                    ("pairs<=4", ["pairs", "4", "0"], seed),
                     ("layers<=4", ["layers", "1", "4"], seed), ("layers=5", ["layers", "5", "5"], seed)]
         streams += [("random-%d" % k, ["gen", "625", "8"], seed * 1000 + k) for k in range(8)]
     else:
-        streams += [("placements<=4", ["placements", "4"], seed), ("cx-pairs=4", ["pairs", "4", "1"], seed),
+        streams += [("placements<=4", ["placements", "4"], seed), ("angles", ["angles"], seed),
+                    ("cx-pairs=4", ["pairs", "4", "1"], seed),
                     ("layers<=4", ["layers", "1", "4"], seed), ("random", ["gen", "300", "8"], seed)]
 
     results = []
@@ -193,7 +195,8 @@ def run(rep):
     rep.coverage.update({
         "evaluations": stats["cases"],
         "distinct_nontrivial": len(distinct),
-        "rule": "corpus + every single-gate placement of every kind + all ordered pairs of cx placements on 4 qubits "
+        "rule": "corpus + every single-gate placement of every kind + every parametric gate (rx,ry,rz,r) with every angle "
+                "of a fixed list (0, multiples of pi/2 up to +-6pi, several turns, negative, tiny, large, float32-lossy) + all ordered pairs of cx placements on 4 qubits "
                 "(thorough: all pairs of {h,rx,cx,cz,swap,iswap,dcnot} placements for n<=4) + every layer shape "
                 "(ordered disjoint argument lists, arity 1/2) for n<=4 (thorough: n<=5) with random gate kinds + "
                 "seeded random circuits of depth<=8; non-trivial = circuit with >=1 gate that reached the matrix "
